@@ -138,6 +138,115 @@ def rule_tag_gate(run, F, cfg):
                f"category {cat}: {len(vs)} feasible tagged valuations routed to `{lst}`", config=cfg)
 
 
+def _gate_ok_in(F, g, conds_items):
+    """the tag gate held on a path of `g`: closure form `tag.map(|t| active_tags.contains(t)).unwrap_or(true)` == true, or
+    an explicit match on filter.tag (None arm passes, Some arm under contains == true)"""
+    conds = dict(conds_items)
+    gl = [(e, v) for e, v in conds.items() if re.search(r"unwrap_or\(.*Option::map\(.*\.tag", e)]
+    ok = any(v == 1 and re.search(r"(arg|up):active_tags", e) for e, v in gl)
+    for e, v in gl:
+        mm = re.search(r"closure\[([^\]]+)\]\(.*\), (\w+)\)$", e)
+        if mm:
+            c = F.fns.get(mm.group(1))
+            c_ok = c is not None and bool(re.match(r"^std::collections::HashSet::contains\((up:|\$)?active_tags, arg:\w+\)$", c.expr_local(0)))
+            ok = ok and mm.group(2) == "true" and c_ok
+    if not gl:
+        td = [v for e, v in conds.items() if re.search(r"^discr\((std::option::Option::as_ref\()?.*\.tag\)+$", e)]
+        if td and all(v == 0 or v == ("not", (1,)) for v in td):
+            ok = True
+        else:
+            ok = any(re.search(r"HashSet::contains\((arg|up):active_tags, .*\.tag", e) and v == 1 for e, v in conds.items())
+    return ok
+
+
+def probe_chain(F, f, kind):
+    """`check` / `check_all` written as one iterator chain over request.get_tokens_for_match():
+         tokens.filter_map(|t| self.filter_map.get(t)).flatten()[.filter(P)]*.find(P)          (kind `first`)
+         tokens.filter_map(|t| self.filter_map.get(t)).flatten()[.filter(P)]+ ...collect()      (kind `all`)
+       -> None if the function is not of that shape, else a dict of what the loop rules check:
+       lookup (the filter_map closure is the plain bucket lookup), others (selecting steps besides the predicates: any
+       other adapter, or a filter applied to the RESULT such as Option::filter), preds (per selecting closure: do all
+       its true paths require matches()==true / the tag gate)."""
+    from analysis.guards import SELECTIVE_ADAPTERS, call_parts
+    from analysis.pathinterp import enumerate_paths as _ep, path_value as _pv
+    term = f.calls(r"^std::iter::Iterator::find$") if kind == "first" else []
+    filters_ = f.calls(r"^std::iter::Iterator::filter$")
+    if kind == "first" and len(term) != 1:
+        return None
+    if kind == "all" and not filters_:
+        return None
+    # outermost selecting call: the find, or the filter that no other filter takes as its source
+    if kind == "first":
+        b, t = term[0]
+    else:
+        srcs = [f.expr_operand(t2["args"][0]) for b2, t2 in filters_]
+        outer = [(b2, t2) for b2, t2 in filters_ if not any(f.expr_call(t2) == s_ for s_ in srcs)]
+        if len(outer) != 1:
+            return None
+        b, t = outer[0]
+    preds = []
+    cur = f.expr_call(t)
+    base = (r"^std::iter::Iterator::flatten\(std::iter::Iterator::filter_map\(request::Request::get_tokens_for_match\(arg:request\), "
+            r"closure\[([^\]]+)\]\(arg:self\)\)\)$")
+    look = None
+    for _ in range(6):
+        m0 = re.match(base, cur)
+        if m0:
+            look = m0.group(1)
+            break
+        parts = call_parts(cur)
+        if not parts or parts[0] not in ("std::iter::Iterator::find", "std::iter::Iterator::filter") or len(parts[1]) != 2:
+            return None
+        mc = re.match(r"^closure\[([^\]]+)\]\(", parts[1][1])
+        if not mc or mc.group(1) not in F.fns:
+            return None
+        preds.append(F.fns[mc.group(1)])
+        cur = parts[1][0]
+    if look is None or look not in F.fns or not preds:
+        return None
+    info = []
+    for P in preds:
+        n_true = 0
+        need_m = need_g = True
+        for p in _ep(P):
+            if p.end != "return":
+                continue
+            val = _pv(P, p, 0) or ""
+            if val == "false":
+                continue
+            n_true += 1
+            conds = list(p.conds)
+            m_ok = any(re.search(r"NetworkMatchable>::matches\(", e) and v == 1 for e, v in conds) or \
+                bool(re.match(r"^<filters::network::NetworkFilter as filters::network::NetworkMatchable>::matches\(", val))
+            g_ok = _gate_ok_in(F, P, conds)
+            if not g_ok and val.startswith("std::option::Option::unwrap_or("):
+                # `.. && <gate>`: on the true path the closure's value IS the gate expression
+                for gb, gt in P.calls(r"^std::option::Option::unwrap_or$"):
+                    a0, a1 = P.expr_operand(gt["args"][0]), P.expr_operand(gt["args"][1])
+                    mm = re.search(r"^std::option::Option::map\(.*\.tag\)?, closure\[([^\]]+)\]\((up|arg):active_tags\)\)$", a0)
+                    cc = F.fns.get(mm.group(1)) if mm else None
+                    if a1 == "true" and cc is not None and re.match(
+                            r"^std::collections::HashSet::contains\((up:|\$)?active_tags, arg:\w+\)$", cc.expr_local(0)) and gb in p.blocks:
+                        g_ok = True
+            need_m = need_m and m_ok
+            need_g = need_g and g_ok
+        info.append((P.name.split("::")[-1], n_true, need_m and n_true > 0, need_g and n_true > 0))
+    sel_sites = {id(t)}
+    others = []
+    for b2, t2 in f.calls():
+        c = strip_generics(t2["callee"])
+        if SELECTIVE_ADAPTERS.search(c) or c in ("std::option::Option::filter", "std::option::Option::take_if", "std::option::Option::xor"):
+            if c in ("std::iter::Iterator::find", "std::iter::Iterator::filter") and any(
+                    re.match(r"^closure\[" + re.escape(P.name) + r"\]", f.expr_operand(t2["args"][1])) for P in preds):
+                continue
+            if c == "std::iter::Iterator::filter_map" and "get_tokens_for_match" in f.expr_operand(t2["args"][0]):
+                continue
+            others.append(c.split("::")[-1])
+    return {"lookup": bool(re.match(r"^std::collections::HashMap::get\(up:self\.filter_map, arg:\w+\)$", F.fns[look].expr_local(0))),
+            "others": others, "preds": info, "site": f.loc(b),
+            "requires_match": any(m_ for _, _, m_, _ in info), "requires_gate": any(g_ for _, _, _, g_ in info)}
+
+
 def rule_gate_shape(run, F, cfg):
     """check / check_all: a filter is returned / pushed only on a path where
     matches()==true and the tag gate (filter.tag vs the passed set) held"""
@@ -193,6 +302,17 @@ def rule_gate_shape(run, F, cfg):
                    f"tag gate over (filter.tag, active_tags)==true [{g_ok}]",
                    site=f.loc(p.blocks[-1]), config=cfg,
                    detail="decisions on path: " + "; ".join(f"{e[-90:]}={v}" for e, v in p.conds[-6:]))
+        chain = probe_chain(F, f, "first" if sink == "return-some" else "all") if n == 0 else None
+        if chain is not None:
+            okc = chain["lookup"] and not chain["others"] and chain["requires_match"] and chain["requires_gate"]
+            run.ob("C07.2.gate-shape", f"{name.split('::')[-1]}:chain-predicate", okc,
+                   f"{name} is one iterator chain over the probe tokens; its selecting closures (name, true paths, needs matches(), "
+                   f"needs the tag gate: {chain['preds']}) let a rule through only where matches()==true and the tag gate held; "
+                   f"nothing else selects among the candidates or the result (found: {chain['others']})",
+                   site=chain["site"], config=cfg,
+                   detail="a tag test applied AFTER the search (`.find(matches).filter(tag ..)`) gives up when the first matching rule "
+                          "has a disabled tag, although a later rule of the bucket would be active")
+            continue
         run.floor("C07.2.gate-shape", f"paths of {name.split('::')[-1]} that emit a filter [{cfg}]", n, 1)
         run.floor("C07.2.gate-shape", f"emitting paths in {name.split('::')[-1]} [{cfg}]", n, 1)
         # the gate closure must call HashSet::contains on the captured set with the tag
